@@ -19,7 +19,9 @@
 (* configurations, OThin on the OLS ones) so that a tier gets a spread     *)
 (* sample of the whole                                                     *)
 (* product; float type, calling form and the loose tolerance rotate with   *)
-(* the hash.  Thin = 1 enumerates the full product.  f32 runs: OLS, and    *)
+(* the hash, and so does the unit of the target (y * 2^ue, ue in           *)
+(* {0,-10,-14,10}: small and large magnitudes, exact in binary floating    *)
+(* point).  Thin = 1 enumerates the full product.  f32 runs: OLS, and      *)
 (* elastic nets on fast-converging designs (see FastConv).                 *)
 (***************************************************************************)
 EXTENDS LinRegRel, Json
@@ -86,16 +88,25 @@ Forms == <<"owned", "view", "fview">>
 \* sweep budget "large enough to converge": coordinate descent contracts at a rate set by the conditioning
 MaxIt(kd, wc) == IF wc THEN 3000 ELSE IF kd = "mtl" THEN 40000 ELSE 100000
 
+\* unit exponents of the target (the case is the same problem with targets y * 2^ue; cfg files have no negative
+\* literals, hence the tuple here).  Units other than 1 are used where the duality-gap test can stop the solver
+\* (l1 part present, i.e. a loose fit is recorded) and the run is f64.
+UEs == <<0, -10, -14, 10>>
+
 Mk(kd, xx, ym, pp, rr, ic, h, wc, fc) ==
-  LET f32 == (h \div (IF kd = "ols" THEN OThin ELSE CThin)) % F32Mod = 0 /\ (kd = "ols" \/ fc) IN
+  LET f32 == (h \div (IF kd = "ols" THEN OThin ELSE CThin)) % F32Mod = 0 /\ (kd = "ols" \/ fc)
+      lt  == IF kd = "ols" \/ pp[1] = 0 \/ rr[1] = 0 THEN 0 ELSE ((h \div 5) % 4) + 1
+  IN
   [kind |-> kd,
    inp |-> [x |-> xx, y |-> ym, p |-> Len(xx[1]), t |-> Len(ym[1]),
             ln |-> pp[1], ld |-> pp[2], rn |-> rr[1], rd |-> rr[2], icpt |-> ic,
             ft |-> IF f32 THEN "f32" ELSE "f64",
             form |-> Forms[((h \div 3) % 3) + 1],
             maxit |-> IF f32 THEN 50 ELSE MaxIt(kd, wc), te |-> 12,
-            \* a second, loosely converged fit where the stopping rule can fire (l1 part present)
-            lte |-> IF kd = "ols" \/ pp[1] = 0 \/ rr[1] = 0 THEN 0 ELSE ((h \div 5) % 3) + 1]]
+            \* a second, loosely converged fit (tolerance 10^-lte, 10^-4 is the default of the library) where the
+            \* stopping rule can fire (l1 part present)
+            lte |-> lt,
+            ue |-> IF lt = 0 \/ f32 THEN 0 ELSE UEs[((h \div 11) % 4) + 1]]]
 
 Init ==
   \E n \in NS, p \in PS :
